@@ -1,5 +1,5 @@
 SPECIFICATION Spec
-CONSTANTS S1 = 2 S2 = 4 S3 = 0  MaxV = 2  Start = "P"  Strict = FALSE  Cross = FALSE  Close = FALSE  LabelBoundary = FALSE  RankByArray = FALSE  Coarse = 1
+CONSTANTS S1 = 2 S2 = 3 S3 = 0  MaxV = 5  Start = "P"  Strict = FALSE  Cross = FALSE  Close = FALSE  LabelBoundary = FALSE  RankByArray = FALSE  Coarse = 2
 CHECK_DEADLOCK FALSE
 INVARIANT Content
 INVARIANT Tight
